@@ -149,10 +149,89 @@ def guard_table(frame):
                 fw = False
             elif vals == ["else"]:
                 fw = True
-            out.append({"cond": cond, "fail_when": fw, "bb": bi, "loc": body.loc(bi), "kind": "if", "outcome": oc, "vals": vals})
+            threaded, tfw = _thread_bool(frame, bi, t, fw) if fw is not None else (None, fw)
+            if threaded:
+                # `ensure!(a || b)` / `if !(a && b)`: the condition was materialised in a temporary assigned on several paths;
+                # each non-constant assignment is its own guard, sitting in the block that computes it (control dependent on `a`)
+                for (dbb, val) in threaded:
+                    c2, fw2 = _strip_not(val, tfw)
+                    out.append({"cond": c2, "fail_when": fw2, "bb": dbb, "sbb": bi, "loc": body.loc(dbb), "kind": "if", "outcome": oc, "vals": vals})
+                continue
+            c2, fw2 = _strip_not(cond, fw)
+            out.append({"cond": c2, "fail_when": fw2, "bb": bi, "sbb": bi, "loc": body.loc(bi), "kind": "if", "outcome": oc, "vals": vals})
         else:
-            out.append({"cond": cond, "fail_when": vals, "bb": bi, "loc": body.loc(bi), "kind": "match", "outcome": oc, "vals": vals})
+            out.append({"cond": cond, "fail_when": vals, "bb": bi, "sbb": bi, "loc": body.loc(bi), "kind": "match", "outcome": oc, "vals": vals})
     return out
+
+
+def _strip_not(cond, fw):
+    """`!c` failing when v  ==  `c` failing when !v  (ensure!(!x) and if x { bail } are one guard)"""
+    while isinstance(cond, tuple) and cond and cond[0] == "un" and cond[1] == "Not" and isinstance(fw, bool):
+        cond = cond[2]
+        fw = not fw
+    return cond, fw
+
+
+def _thread_bool(frame, sbb, term, fw):
+    """if the switch operand is a temporary assigned on >= 2 paths that all fall straight into the switch block, return
+    [(def block, value term)] for the non-constant assignments; constant assignments equal to the failing value make the whole
+    thing unthreadable (returns None), constant assignments of the passing value contribute no guard"""
+    op = term["d"]
+    pl = op.get("c") or op.get("m")
+    if pl is None or pl["p"]:
+        return None, fw
+    body = frame.body
+    local = pl["l"]
+    join = sbb
+    # the switch may test `!tmp`, `not(tmp)` (anyhow's ensure!) or a copy of tmp: chase single definitions next to the switch
+    for _ in range(3):
+        defs = frame.defs.get(local, [])
+        if len(defs) == 1 and defs[0][0] == "rv" and defs[0][1] == join:
+            r = body.blocks[join]["s"][defs[0][2]]["r"]
+            src = None
+            if r["k"] == "un" and r["op"] == "Not":
+                src, fw = r["a"], (not fw)
+            elif r["k"] == "use":
+                src = r["a"]
+            spl = (src.get("c") or src.get("m")) if src else None
+            if spl is None or spl["p"]:
+                return None, fw
+            local = spl["l"]
+            continue
+        if len(defs) == 1 and defs[0][0] == "call":
+            cb = defs[0][1]
+            ct = body.blocks[cb]["t"]
+            if ct.get("name") == "not" and len(ct.get("args", [])) == 1 and ct.get("t") == join and not body.blocks[join]["s"] and len(cfg.preds(body)[join]) == 1:
+                spl = ct["args"][0].get("c") or ct["args"][0].get("m")
+                if spl is None or spl["p"]:
+                    return None, fw
+                local, fw, join = spl["l"], (not fw), cb
+                continue
+        break
+    defs = frame.defs.get(local, [])
+    if len(defs) < 2 or any(k != "rv" for (k, _, _) in defs):
+        return None, fw
+    out = []
+    sbb = join
+    for (_, bi, si) in defs:
+        # straight-line into the switch block
+        cur, steps = bi, 0
+        while cur != sbb and steps < 3:
+            s = cfg.succs(body)[cur]
+            tt = body.blocks[cur]["t"]
+            if len(s) != 1 or tt["k"] not in ("goto", "drop"):
+                return None, fw
+            cur = s[0]
+            steps += 1
+        if cur != sbb:
+            return None, fw
+        val = frame.rvalue_term(body.blocks[bi]["s"][si]["r"])
+        if isinstance(val, tuple) and val and val[0] == "c":
+            if bool(val[1]) == fw:
+                return None, fw
+            continue
+        out.append((bi, val))
+    return (out or None), fw
 
 
 NEG = {"Lt": "Ge", "Le": "Gt", "Gt": "Le", "Ge": "Lt", "Eq": "Ne", "Ne": "Eq"}
